@@ -1,5 +1,5 @@
 SPECIFICATION Spec
-CONSTANTS MaxSteps = 3000
+CONSTANTS MaxSteps = 6000
 INVARIANT LocsWritten
 INVARIANT Sane
 CHECK_DEADLOCK FALSE
